@@ -528,7 +528,6 @@ func ordinalOf(fn *ssa.Function, x ssa.Instruction) int {
 	return n
 }
 
-
 // indexLookupFns: functions of runtimev2 of the shape `for i := range params { if params[i].Name == name { return i } }; return -1`.
 func indexLookupFns(t *Tree) map[*ssa.Function]bool {
 	out := map[*ssa.Function]bool{}
